@@ -159,10 +159,19 @@ def run_history(case, fresh=False, workers=None):
             def do():
                 c = get_crop(step.get("reload"))
                 if how == "crop.grow":
-                    c.grow(tuple(ids) if len(ids) != 1 or step.get("tuple1")
-                           else ids[0], **opts)
+                    arg = tuple(ids) if len(ids) != 1 or step.get("tuple1") \
+                        else ids[0]
+                    if step.get("np_ids"):
+                        # ids that come out of numpy (np.arange, masks ...)
+                        import numpy as np
+                        arg = np.array(ids) if isinstance(arg, tuple) \
+                            else np.int64(arg)
+                    c.grow(arg, **opts)
                 elif how == "xyzpy.grow":
                     for i in ids:
+                        if step.get("np_ids"):
+                            import numpy as np
+                            i = np.int64(i)
                         x.grow(i, crop=c, verbosity=0, **opts)
                 elif how == "grow-in-dir":
                     cwd = os.getcwd()
@@ -371,6 +380,7 @@ def history(draw, max_settings=40):
         "descending": st.booleans(),
         "tuple1": st.booleans(),
         "parallel": st.booleans(),
+        "np_ids": st.sampled_from([False, False, True]),
     }), max_size=5))
     case["plan"] = steps
     case["final_reload"] = draw(st.booleans())
